@@ -65,7 +65,12 @@ func RestoreCreateContainerV2Request(contractCalls []event.NotaryEvent) (event.E
 	res.MainTransaction = *cnrCall.Raw().MainTransaction
 
 	if withOptionalEacl {
-		ev, err := RestorePutContainerEACLRequest(contractCalls[1])
+		eaclCall := contractCalls[1]
+		if eaclCall.ScriptHash() != cnrCall.ScriptHash() || !eaclCall.Type().Equal(fschaincontracts.PutContainerEACLMethod) {
+			return nil, fmt.Errorf("unexpected additional contract call %s.%s", eaclCall.ScriptHash().StringLE(), eaclCall.Type())
+		}
+
+		ev, err := RestorePutContainerEACLRequest(eaclCall)
 		if err != nil {
 			return nil, fmt.Errorf("additional eACL setting parsing: %w", err)
 		}
